@@ -32,6 +32,23 @@ Extensions (additive; used by specs_geodesy, none changes the output of older sp
               `inrange(x, lo, hi, exclude=…)` (-> `<name>_rejects`); tuple locals, `f(*t)`, np.column_stack
   expressions: == !=, np.ones/zeros/empty (shape glue), np.clip, np.sign, np.sum(<tuple expr>, axis=1),
               np.logical_and/or/not, ~m, np.isnan, abs(), any()/all(), `.copy()`
+
+Complex variant (additive; spec keys "variant" + "complex_params", used by specs/em.py):
+  a second translation `<name>_<variant>` of the same function in which the listed parameters are
+  complex numbers.  A complex parameter p becomes the two real parameters `pre pim`; every
+  expression gets a kind (real | complex) by inference over the AST:
+    np.real(p) -> pre, np.imag(p) -> pim (np.real/np.imag of another complex term t -> t.re / t.im);
+    + - * / and unary minus with at least one complex operand are complex operations, a real operand
+    is promoted (re, 0) first - exactly what Python / numpy do with mixed operands;
+    real dialect: Mathlib's ℂ (`(⟨pre, pim⟩ : ℂ)`, coercion `((x : ℝ) : ℂ)`);
+    float dialect: the core-only structure TF.Cplx of PRELUDE["complex_float"] (textbook product,
+    Smith's division as CPython's `_Py_c_quot`);
+    np.isreal(x) is decided statically by the kind of x (complex parameter: False, i.e. the variant
+    models a genuinely complex argument, Im p ≠ 0 — recorded as a note);
+    a call f(…) with a complex argument resolves to the translated variant of f with the same complex
+    positions.
+  Everything else applied to a complex term (powers, ufuncs, comparisons, masks, if-expressions,
+  tuple assignment, nested blocks) is a Refusal.
 """
 import ast
 import fractions
@@ -84,11 +101,17 @@ class Translator:
         self.used_constants = {}
         self.notes = []
         self.uses_while = False
+        self.cmode = False                  # complex variant: some parameters are complex numbers
+        self.cparams = ()
+        self.ckinds = {}                    # name -> 'c' | 'r' (filled in source order while flattening)
+        self.uses_complex = False
 
     # -------------------------------------------------------------- expressions
     def expr(self, e, d, env):
         """d = 'real' | 'float'; env: name -> kind ('num' | 'bool' | 'fun')"""
         R = d == "real"
+        if self.cmode and self.is_c(e):
+            return self.cexpr(e, d, env)
         if isinstance(e, ast.Constant):
             if isinstance(e.value, bool):
                 raise Refusal("bool literal")
@@ -141,6 +164,128 @@ class Translator:
                 # v[m] for a boolean mask m: pointwise the element itself (meaningful where m holds)
                 return san(e.value.id)
         raise Refusal(f"expression {type(e).__name__}: {ast.unparse(e)}")
+
+    # ---------------------------------------------------------- complex variant (additive)
+    REAL_OF_COMPLEX = ("real", "imag")
+
+    def is_c(self, e):
+        """kind inference: True when the expression is complex-valued in the complex variant"""
+        if not self.cmode:
+            return False
+        if isinstance(e, ast.Constant):
+            return isinstance(e.value, complex)
+        if isinstance(e, ast.Name):
+            return self.ckinds.get(e.id) == "c"
+        if isinstance(e, ast.BinOp):
+            return self.is_c(e.left) or self.is_c(e.right)
+        if isinstance(e, ast.UnaryOp):
+            return self.is_c(e.operand)
+        if isinstance(e, ast.IfExp):
+            return self.is_c(e.body) or self.is_c(e.orelse)
+        if isinstance(e, (ast.Tuple, ast.List)):
+            return any(self.is_c(x) for x in e.elts)
+        if isinstance(e, ast.Subscript):
+            return self.is_c(e.value)
+        if isinstance(e, ast.Attribute):
+            return self.is_c(e.value)
+        if isinstance(e, ast.Call):
+            f = e.func
+            args = list(e.args) + [k.value for k in e.keywords]
+            anyc = any(self.is_c(a) for a in args)
+            if isinstance(f, ast.Attribute) and isinstance(f.value, ast.Name) and f.value.id == "np" \
+                    and f.attr in self.REAL_OF_COMPLEX:
+                return False
+            if isinstance(f, ast.Name) and anyc:
+                v = self.find_variant(e)
+                return v["cret"] == "c"
+            if isinstance(f, ast.Attribute) and self.is_c(f.value):
+                return True
+            return anyc          # unknown function of a complex argument: treated as complex (then refused)
+        return False
+
+    def find_variant(self, e):
+        """the translated variant of the called function whose complex positions are those of the call"""
+        f = e.func
+        if e.keywords or any(isinstance(a, ast.Starred) for a in e.args):
+            raise Refusal(f"call with complex argument: {ast.unparse(e)}")
+        pos = tuple(i for i, a in enumerate(e.args) if self.is_c(a))
+        cands = [v for k, v in self.known.items() if k.startswith(f.id + "@") and tuple(v["cpos"]) == pos
+                 and v["npyparams"] == len(e.args)]
+        if len(cands) != 1:
+            raise Refusal(f"call {ast.unparse(e)}: no translated variant of {f.id} with complex argument position(s) {list(pos)}")
+        return cands[0]
+
+    def cexpr(self, e, d, env):
+        """Lean term of a complex-valued expression (ℂ in the real dialect, TF.Cplx in the float dialect)"""
+        R = d == "real"
+        self.uses_complex = True
+        if isinstance(e, ast.Name):
+            if e.id not in env:
+                raise Refusal(f"unknown name {e.id}")
+            if env[e.id] == "cparam":
+                n = san(e.id)
+                return f"(⟨{n}re, {n}im⟩ : ℂ)" if R else f"(Cplx.mk {n}re {n}im)"
+            if env[e.id] == "cnum":
+                return san(e.id)
+            raise Refusal(f"name {e.id} is not complex")
+        if isinstance(e, ast.UnaryOp) and isinstance(e.op, ast.USub):
+            return f"(-{self.cexpr(e.operand, d, env)})"
+        if isinstance(e, ast.UnaryOp) and isinstance(e.op, ast.UAdd):
+            return self.cexpr(e.operand, d, env)
+        if isinstance(e, ast.BinOp):
+            ops = {ast.Add: "+", ast.Sub: "-", ast.Mult: "*", ast.Div: "/"}
+            if type(e.op) not in ops:
+                raise Refusal(f"operator {type(e.op).__name__} on a complex value: {ast.unparse(e)}")
+
+            def side(x):
+                if self.is_c(x):
+                    return self.cexpr(x, d, env)
+                t = self.expr(x, d, env)          # a real operand is promoted to (t, 0), as Python/numpy do
+                return f"(({t} : ℝ) : ℂ)" if R else f"(Cplx.ofReal {t})"
+            return f"({side(e.left)} {ops[type(e.op)]} {side(e.right)})"
+        if isinstance(e, ast.Call) and isinstance(e.func, ast.Name):
+            v = self.find_variant(e)
+            if v["cret"] != "c":
+                raise Refusal(f"call {ast.unparse(e)} is not complex-valued")
+            return self.call_variant(e, d, env, v)
+        raise Refusal(f"complex-valued expression {type(e).__name__}: {ast.unparse(e)}")
+
+    def call_variant(self, e, d, env, v):
+        R = d == "real"
+        out = []
+        for i, a in enumerate(e.args):
+            if i in v["cpos"]:
+                if isinstance(a, ast.Name) and env.get(a.id) == "cparam":
+                    out += [f"{san(a.id)}re", f"{san(a.id)}im"]
+                else:
+                    t = self.cexpr(a, d, env)
+                    out += [f"({t}).re", f"({t}).im"]
+            else:
+                out.append(self.expr(a, d, env))
+        ns = "TR" if R else "TF"
+        return "(" + f"{ns}.{san(v['lean_name'])} " + " ".join(out) + ")"
+
+    def cty(self, d):
+        return "ℂ" if d == "real" else "Cplx"
+
+    def note_kinds(self, st):
+        """record the kind (real / complex) of every local the statement assigns (source order; only the
+        branches that survive the static tests are visited)"""
+        if isinstance(st, ast.Assign):
+            for tgt in st.targets:
+                if isinstance(tgt, ast.Name):
+                    k = "c" if self.is_c(st.value) else "r"
+                    if self.ckinds.get(tgt.id, k) != k:
+                        raise Refusal(f"local {tgt.id} is assigned both real and complex values")
+                    self.ckinds[tgt.id] = k
+                elif self.is_c(st.value) or self.is_c(tgt):
+                    raise Refusal(f"complex value in assignment {ast.unparse(st).splitlines()[0]}")
+        elif isinstance(st, ast.AugAssign):
+            if self.is_c(st.value) or self.is_c(st.target):
+                raise Refusal(f"complex value in {ast.unparse(st).splitlines()[0]}")
+        elif isinstance(st, (ast.If, ast.While)):
+            for b in list(st.body) + list(st.orelse):
+                self.note_kinds(b)
 
     # ---------------------------------------------------------- tuples (additive)
     @staticmethod
@@ -241,6 +386,18 @@ class Translator:
             else:
                 raise Refusal(f"keyword arguments in {ast.unparse(e)}")
         args = e.args
+        if self.cmode and any(self.is_c(a) for a in args):
+            if isinstance(f, ast.Attribute) and isinstance(f.value, ast.Name) and f.value.id == "np" \
+                    and f.attr in ("real", "imag") and len(args) == 1:
+                a = args[0]
+                part = "re" if f.attr == "real" else "im"
+                if isinstance(a, ast.Name) and env.get(a.id) == "cparam":
+                    return f"{san(a.id)}{part}"
+                return f"({self.cexpr(a, d, env)}).{part}"
+            if isinstance(f, ast.Name):
+                v = self.find_variant(e)       # real-valued variant of a translated function
+                return self.call_variant(e, d, env, v)
+            raise Refusal(f"function of a complex value: {ast.unparse(e)}")
         if isinstance(f, ast.Attribute) and isinstance(f.value, ast.Name) and f.value.id == "np":
             n = f.attr
             if n in UFUNCS and len(args) == 1:
@@ -365,6 +522,8 @@ class Translator:
     def cond(self, e, d, env):
         """boolean expression: Prop (real, classical if) or Bool (float)"""
         R = d == "real"
+        if self.cmode and isinstance(e, ast.Compare) and (self.is_c(e.left) or any(self.is_c(c) for c in e.comparators)):
+            raise Refusal(f"comparison of complex values: {ast.unparse(e)}")
         if isinstance(e, ast.Compare) and len(e.ops) == 1:
             ops = {ast.Lt: "<", ast.LtE: "≤", ast.Gt: ">", ast.GtE: "≥"}
             if type(e.ops[0]) in (ast.Eq, ast.NotEq):
@@ -407,6 +566,8 @@ class Translator:
                 x = self.expr(a[0], d, env)
                 return "False" if R else f"(Float.isNaN {x})"      # no NaN among the reals
             if n == "isreal" and len(a) == 1:
+                if self.cmode and self.is_c(a[0]):
+                    raise Refusal(f"np.isreal of a complex value outside a statically decided test: {ast.unparse(e)}")
                 self.expr(a[0], d, env)
                 return "True" if R else "true"
         raise Refusal(f"condition {ast.unparse(e)}")
@@ -416,6 +577,8 @@ class Translator:
         if isinstance(e, ast.Call) and isinstance(e.func, ast.Attribute) and isinstance(e.func.value, ast.Name) \
                 and e.func.value.id == "np":
             if e.func.attr == "isreal" and len(e.args) == 1:
+                if self.cmode:
+                    return not self.is_c(e.args[0])
                 return True
             if e.func.attr in ("all", "any") and len(e.args) == 1:
                 return self.static(e.args[0])
@@ -500,6 +663,8 @@ class Translator:
                     lets.append(f"let {san(tgt.id)} : {'Prop' if d == 'real' else 'Bool'} := {self.cond(v, d, env)}")
                     env[tgt.id] = "bool"
                 else:
+                    if self.cmode and self.is_c(v):
+                        raise Refusal(f"complex value assigned inside a branch / loop: {ast.unparse(st).splitlines()[0]}")
                     lets.append(f"let {san(tgt.id)} : {ty} := {self.expr(v, d, env)}")
                     env[tgt.id] = "num"
                 assigned.append(tgt.id)
@@ -819,6 +984,33 @@ class Translator:
         "float": ("/-- `while c s: s = f s`, fuel-bounded so that the driver always answers -/\n"
                   "def whileLoop {σ : Type} (fuel : Nat) (c : σ → Bool) (f : σ → σ) (s : σ) : σ :=\n"
                   "  match fuel with\n  | 0 => s\n  | n + 1 => if c s then whileLoop n c f (f s) else s\n\n"),
+        # complex variant, float dialect: IEEE-double pairs with the arithmetic of Python `complex` / numpy complex128
+        "complex_float": (
+            "/-- IEEE-double complex number (Python `complex` / numpy complex128); core Lean only -/\n"
+            "structure Cplx where\n  re : Float\n  im : Float\n\n"
+            "namespace Cplx\n\n"
+            "/-- a real operand of a mixed operation is promoted to (x, +0) first, as Python and numpy do -/\n"
+            "def ofReal (x : Float) : Cplx := ⟨x, 0⟩\n\n"
+            "instance : Add Cplx := ⟨fun a b => ⟨a.re + b.re, a.im + b.im⟩⟩\n"
+            "instance : Sub Cplx := ⟨fun a b => ⟨a.re - b.re, a.im - b.im⟩⟩\n"
+            "instance : Neg Cplx := ⟨fun a => ⟨-a.re, -a.im⟩⟩\n"
+            "/-- textbook product (CPython `_Py_c_prod`, numpy `nc_prod` / complex128 multiply loop) -/\n"
+            "instance : Mul Cplx := ⟨fun a b => ⟨a.re * b.re - a.im * b.im, a.re * b.im + a.im * b.re⟩⟩\n\n"
+            "/-- Smith's algorithm in the form of CPython's `_Py_c_quot` (divide by `denom`).  numpy's complex128\n"
+            "divide loop is the same algorithm but multiplies by the reciprocal `1/denom`: the two differ by a few\n"
+            "ulp, far below the relative 1e-9 of the cross-run.  A zero divisor gives NaN components here (CPython\n"
+            "raises ZeroDivisionError, numpy returns nan/inf). -/\n"
+            "def div (a b : Cplx) : Cplx :=\n"
+            "  if Float.abs b.re >= Float.abs b.im then\n"
+            "    let ratio := b.im / b.re\n"
+            "    let denom := b.re + b.im * ratio\n"
+            "    ⟨(a.re + a.im * ratio) / denom, (a.im - a.re * ratio) / denom⟩\n"
+            "  else\n"
+            "    let ratio := b.re / b.im\n"
+            "    let denom := b.re * ratio + b.im\n"
+            "    ⟨(a.re * ratio + a.im) / denom, (a.im * ratio - a.re) / denom⟩\n\n"
+            "instance : Div Cplx := ⟨div⟩\n\n"
+            "end Cplx\n\n"),
     }
 
     # -------------------------------------------------------------- functions
@@ -845,8 +1037,21 @@ class Translator:
         self.presence.update({p: "given" for p in tuple_params})
         self.pykinds = []
         self._tmp = 0
+        cparams = list(spec.get("complex_params", ()))
+        if cparams and not spec.get("variant"):
+            raise Refusal("complex_params without a variant name")
+        for p in cparams:
+            if p not in params or p in fun_params or p in tuple_params or p in none_params:
+                raise Refusal(f"complex parameter {p} is not a plain positional parameter")
+        self.cmode = bool(cparams)
+        self.cparams = tuple(cparams)
+        self.ckinds = {p: ("c" if p in cparams else "r") for p in params}
+        self.cret = "r"
         for p in params:
-            if p in fun_params:
+            if p in cparams:
+                env[p] = "cparam"
+                sig += [f"({san(p)}re : {ty})", f"({san(p)}im : {ty})"]
+            elif p in fun_params:
                 env[p] = "fun"
                 sig.append(f"({san(p)} : {ty} → {ty})")
             elif p in tuple_params:
@@ -896,14 +1101,18 @@ class Translator:
                     continue
                 if isinstance(st, ast.If):
                     sv = self.static(st.test)
+                    how = f"variant {spec.get('variant')}: {', '.join(cparams)} complex, the other values real" if self.cmode \
+                        else "real-valued model"
                     if sv is True:
-                        notes.append(f"branch taken (real-valued model): {ast.unparse(st.test)}")
+                        notes.append(f"branch taken ({how}): {ast.unparse(st.test)}")
                         out += flatten(st.body)
                         continue
                     if sv is False:
-                        notes.append(f"branch not taken (real-valued model): {ast.unparse(st.test)}")
+                        notes.append(f"branch not taken ({how}): {ast.unparse(st.test)}")
                         out += flatten(st.orelse)
                         continue
+                if self.cmode:
+                    self.note_kinds(st)
                 out.append(st)
             return out
         body = flatten(body)
@@ -954,6 +1163,9 @@ class Translator:
                         c = self.cond(v, d, env)
                         env[tgt.id] = "bool"
                         lets.append(f"let {san(tgt.id)} : {'Prop' if R else 'Bool'} := {c}")
+                    elif self.cmode and self.is_c(v):
+                        lets.append(f"let {san(tgt.id)} : {self.cty(d)} := {self.cexpr(v, d, env)}")
+                        env[tgt.id] = "cnum"
                     else:
                         lets.append(f"let {san(tgt.id)} : {ty} := {self.expr(v, d, env)}")
                         env[tgt.id] = "num"
@@ -987,8 +1199,12 @@ class Translator:
                 if isinstance(v, ast.Tuple):
                     rettuple = len(v.elts)
                     ret = "(" + ", ".join(self.expr(x, d, env) for x in v.elts) + ")"
+                    if self.cmode:
+                        self.cret = ["c" if self.is_c(x) else "r" for x in v.elts]
                 else:
                     ret = self.expr(v, d, env)
+                    if self.cmode:
+                        self.cret = "c" if self.is_c(v) else "r"
                 continue
             if self.stmt_ext(st, lets, env, d, ctx, pre=False):
                 continue
@@ -996,6 +1212,13 @@ class Translator:
         if ret is None:
             raise Refusal("no return")
         rty = ty if not rettuple else " × ".join([ty] * rettuple)
+        if self.cmode and isinstance(self.cret, list):
+            rty = " × ".join(self.cty(d) if k == "c" else ty for k in self.cret)
+        elif self.cmode and self.cret == "c":
+            rty = self.cty(d)
+        if self.cmode:
+            notes.append(f"variant {spec['variant']}: parameter(s) {', '.join(cparams)} complex (pairs <p>re <p>im); np.isreal(<p>) is decided "
+                         f"False, i.e. the variant models Im <p> ≠ 0 (numpy takes the all-real branch when the imaginary part is exactly 0)")
         name = san(fn.name)
         out = []
         pre = "noncomputable def" if R else "def"
@@ -1018,7 +1241,7 @@ class Translator:
             name_rej = f"{name}_rejects"
         while len(guard_nlets) < len(guards):
             guard_nlets.append(prev_n)
-        if guards and (tuple_params or none_params or any(guard_nlets)):
+        if guards and (tuple_params or none_params or any(guard_nlets) or self.cmode):
             # guards that mention locals / tuple parameters: full signature, the lets in force at the guard
             gs = [g if not n else "(" + "".join(l + "; " for l in lets[:n]) + g + ")" for g, n in zip(guards, guard_nlets)]
             if R:
